@@ -10,7 +10,6 @@ TRUSTED_BASE = ['hand-written Gallina model coq/Ext/Model.v of get_subset/_copy_
 ASSUMPTIONS = ['values: Python == coincides with structural equality (generators never mix 1 / 1.0 / True, no NaN)',
                'inputs are valid and nondegenerate (no key in a varying class of multiplicity 1); idx < shape[dim]',
                'key order of the result is not modelled (compared as unordered maps)',
-               'main stream excludes trailing-singleton shapes (X,Y,Z,1)/(X,Y,Z,T,1) and time-subsets of 5-D extensions '
-               'without slice dimension, where the real code raises KeyError/TypeError (findings N2, N5; '
-               'VERIF_EXT_FINDINGS=1 generates them)']
+               'the random stream excludes trailing-singleton shapes (X,Y,Z,1)/(X,Y,Z,T,1), where the real code raises KeyError '
+               '(open known finding N2, signature subset/trailing-singleton/KeyError; covered by corpus/C04)']
 PARTS = [extlib.SubsetPart]
